@@ -110,9 +110,17 @@ def specs(ctx, n):
             calls.append(dict(n_iter=n2, max_score=rng.choice(pool), memory=rng.random() < 0.5))
             if use_script:
                 script += [(rng.choice(alphabet), None) for _ in range(n2)]
-        out.append(dict(name=name, space=space, table=table, script=script, calls=calls, seed=rng.randrange(10 ** 6),
-                        init=gen.gen_initialize(rng, space), scalar=rng.choice(["float", "np", "int"]),
-                        steps_api=False))
+        spec = dict(name=name, space=space, table=table, script=script, calls=calls, seed=rng.randrange(10 ** 6),
+                    init=gen.gen_initialize(rng, space), scalar=rng.choice(["float", "np", "int"]),
+                    steps_api=False)
+        if use_script and rng.random() < 0.15:
+            # the objective returns (score, metrics) and one of its metrics happens to be called "score": the threshold is about the
+            # returned score, not about that entry (memory off: one objective call per step, so step k's score is the k-th scripted one)
+            spec["script"] = [(sc_, {"score": rng.choice(alphabet), "aux": 1.0}) for sc_, _ in spec["script"]]
+            for c_ in calls:
+                c_["memory"] = False
+            spec["metric_named_score"] = True
+        out.append(spec)
     return out
 
 
@@ -122,6 +130,7 @@ def d_unit_and_monitor(ctx, n):
                  "(incl. 0, -0.0, values equal to a score, +-inf) vs the model driver on the recorded proposals; "
                  "non-trivial = the run has >= 2 steps; distinct by (scores, m, n_iter)")
     ctx.monitor_rule = ("per call: rows == (first k with score_k >= m) + 1 else n_iter, and (best_score >= m) == reached; "
+                        "objectives returning (score, metrics) with a metric that is itself called \"score\" (the threshold is about the returned score); "
                         "distinct by (optimizer, scores, m)")
     results = []
     for spec in specs(ctx, n):
@@ -133,11 +142,15 @@ def d_unit_and_monitor(ctx, n):
         if r["exc"] is not None:
             ctx.blocked.append(dict(spec=dunit.spec_brief(spec), exc=r["exc"][:2]))
             continue
+        if spec.get("metric_named_score"):
+            r["lit"] = None          # the model's rows assume metric names disjoint from "score": monitor only
         # monitor
         prev_rows = 0
         prev_scores = 0
         for c, o in zip(spec["calls"], r["obs"]):
             scores = o["score_l"][prev_scores:]
+            if spec.get("metric_named_score"):
+                scores = [float(x[0]) for x in spec["script"][prev_scores:prev_scores + len(scores)]]      # what the objective returned as score
             rows = len(o["rows"]) - prev_rows
             ctx.monitor_runs += 1
             ctx.monitor_nontrivial.add((spec["name"], tuple(scores), repr(c["max_score"])))
@@ -159,7 +172,8 @@ def pre_build(ctx):
 def run(ctx):
     import gen_units
     gen_units.g_unit(ctx, "translate_driver")
-    k_unit(ctx)
+    import common as _common
+    _common.guarded(ctx, "K-unit", k_unit, ctx)
     d_unit_and_monitor(ctx, 90 if ctx.quick else 600)
 
 
